@@ -77,8 +77,47 @@ OFFER_SYSTEMS = [((1,), "fwd"), ((0, 1), "fwd"), ((4,), "rev"), ((0, 5), "fwd")]
 EXTRA_SYSTEMS = [(M.TAGS.index("i3"),), (0, M.TAGS.index("i3"))]
 
 
+def check_unbalanced_admission(res):
+    """the system whose equations conserve 'every element and charge' must be one whose reactions do: every pool equilibrium
+    with one species replaced by its neutral parent (charge dropped: charge-only imbalance, on either side) or with one
+    coefficient raised by one (element imbalance) is refused by the constructor with ValueError"""
+    import re
+    from chempy import Equilibrium, Species
+    from chempy.equilibria import EqSystem
+
+    for tag, reac, prod, lgk in M.POOL:
+        variants = []
+        for side, d in (("reac", reac), ("prod", prod)):
+            for sp in d:
+                m = re.search(r"[+-]\d*$", sp)
+                if m:
+                    variants.append(("neutral %s on the %s side" % (sp[: m.start()], side), side, sp, sp[: m.start()], 0))
+                variants.append(("coefficient of %s raised" % sp, side, sp, sp, 1))
+        for what, side, old, new, dn in variants:
+            r2 = {(new if (side == "reac" and k == old) else k): v + (dn if (side == "reac" and k == old) else 0) for k, v in reac.items()}
+            p2 = {(new if (side == "prod" and k == old) else k): v + (dn if (side == "prod" and k == old) else 0) for k, v in prod.items()}
+            names = list(r2) + [k for k in p2 if k not in r2]
+            case = dict(layer="UB", tag=tag, what=what)
+            res.states += 1
+            res.transitions += 1
+            res.evaluations += 1
+            res.nontrivial += 1
+            try:
+                EqSystem([Equilibrium(r2, p2, 10.0 ** lgk)], [Species.from_formula(n) for n in names])
+                got = "accepted"
+            except ValueError:
+                got = "ValueError"
+            except Exception as e:
+                got = "EXC %s" % type(e).__name__
+            res.outcomes["unbalanced-equilibrium:%s" % got] += 1
+            if got != "ValueError":
+                res.violation("C07|EqSystem|unbalanced-equilibrium|%s" % ("accepted" if got == "accepted" else "wrong-exception"), "EqSystem([%s = %s]) (%s, %s) -> %s; it conserves neither what its equations claim to conserve" % (
+                    " + ".join("%d %s" % (v, k) for k, v in r2.items()), " + ".join("%d %s" % (v, k) for k, v in p2.items()), tag, what, got), case, got, "ValueError")
+    res.sample(dict(layer="UB", variants="charge dropped from one species / one coefficient raised, every pool equilibrium"))
+
+
 def chunks(tier):
-    return _chunks_f(tier) + [("G", i, j) for i in range(len(OFFER_SYSTEMS)) for j in range(4)]
+    return [("UB",)] + _chunks_f(tier) + [("G", i, j) for i in range(len(OFFER_SYSTEMS)) for j in range(4)]
 
 
 def _chunks_f(tier):
@@ -636,6 +675,10 @@ def check_conservation(res, ctx, xi, scale):
 
 # --------------------------------------------------------------------------------------------- chunks
 def run_chunk(chunk, tier):
+    if chunk[0] == "UB":
+        res = Result()
+        check_unbalanced_admission(res)
+        return res
     if chunk[0] == "G":
         res = Result()
         idx, order = OFFER_SYSTEMS[chunk[1]]
@@ -718,6 +761,11 @@ def run_chunk(chunk, tier):
 def replay(case):
     res = Result()
     layer = case.get("layer")
+    if layer == "UB":
+        sub = Result()
+        check_unbalanced_admission(sub)
+        vs = [v for v in sub.violations if v["case"] == case]
+        return dict(key=vs[0]["key"], what=vs[0]["what"], observed=vs[0]["observed"], expected=vs[0]["expected"]) if vs else None
     ctx = Ctx(tuple(case["idx"]), case["order"], case["variant"], kinv=case.get("kinv"))
     if layer == "f":
         check_one(res, ctx, tuple(case["cfg"]), case["tr"], tuple(case["xi"]), case["scale"], tuple(case["pert"]) if case.get("pert") else None, case["mode"])
